@@ -83,6 +83,19 @@ def join_facts(fn: ast.FunctionDef):
             f[which] = (lit, val)
     if "none" not in f or "some" not in f:
         raise Untranslatable("join(): the `on is None` / `on is not None` cross tests were not both found")
+    # `how` must not be rewritten anywhere else (e.g. lower-cased): the model would not know
+    n_assign = 0
+    for st in ast.walk(fn):
+        tg = []
+        if isinstance(st, ast.Assign):
+            tg = st.targets
+        elif isinstance(st, (ast.AugAssign, ast.AnnAssign)):
+            tg = [st.target]
+        elif isinstance(st, ast.NamedExpr):
+            tg = [st.target]
+        n_assign += sum(1 for t_ in tg for x in ast.walk(t_) if _is_name(x, "how"))
+    if n_assign != 2:
+        raise Untranslatable(f"join(): `how` is assigned {n_assign} times (the model knows the two cross rewrites only)")
     # --- join_type = JOIN_TYPE_MAPPING.get(how, how).replace(X, Y)
     jt = [st for st in ast.walk(fn) if isinstance(st, ast.Assign) and len(st.targets) == 1 and _is_name(st.targets[0], "join_type")]
     if len(jt) != 1:
